@@ -27,8 +27,10 @@ fn new_vm() -> Box<vtex::Vm> {
     let mut m = vtex::builtins();
     const NAMES: [&str; 20] = ["fna", "fnb", "fnc", "fnd", "fne", "fnf", "fng", "fnh", "fni", "fnj", "fnk", "fnl", "fnm", "fnn", "fno", "fnp", "fnq", "fnr", "fns", "fnt"];
     for (i, n) in NAMES.iter().enumerate() {
-        m.insert(n, command::BuiltIn::new_font(types::Font(i as u16 + 1)));
+        // \fna..\fns = fonts 1..19, \fnt = 65535 (the largest font number), \fnz = 0 (the null font)
+        m.insert(n, command::BuiltIn::new_font(types::Font(if i == 19 { 65535 } else { i as u16 + 1 })));
     }
+    m.insert("fnz", command::BuiltIn::new_font(types::Font(0)));
     let mut vm = vm::VM::<vtex::HState>::new_with_built_in_commands(m);
     vm.state.time = vtex::texlang_stdlib::time::Component::new_with_values(0, 1, 1, 2000);
     vtex::prepare(&mut vm);
@@ -41,6 +43,9 @@ fn new_vm() -> Box<vtex::Vm> {
 enum Op {
     Open,
     Close,
+    /// group delimiters reached through \let\bg={ \let\eg=} (implicit braces: the CharacterTokenAlias route of the VM)
+    OpenImplicit,
+    CloseImplicit,
     /// assignment to target `tgt` (index into Prog::targets) with form `f`, prefixed by \global if `g`.
     /// `f | SAME`: the form `f` writes again the value that is current at this point (only for forms
     /// whose value does not depend on the old one); scoping effects are those of any assignment.
@@ -80,6 +85,10 @@ struct Flags {
     globaldefs_forced_global: bool,
     globaldefs_forced_local: bool,
     global_same_value_while_group_holds_save: bool,
+    default_value_while_group_holds_save: bool,
+    implicit_close_with_saved: bool,
+    edge_target_restored: bool,
+    non_ascii_target_restored: bool,
     /// a \global-prefixed assignment ran while \globaldefs>0 and later an unprefixed one ran inside a group while \globaldefs=0
     prefix_under_positive_globaldefs_then_plain_at_zero: bool,
     max_depth: usize,
@@ -98,6 +107,8 @@ struct Built {
 
 /// a probe point is written `;v1,v2:` – the terminator tells a complete probe from one cut short by a fatal error
 const SAME: u8 = 0x80;
+/// `f | DEFAULT`: the target's `default_text` – writes the INITIAL value again
+const DEFAULT: u8 = 0x40;
 const SEP: char = ';';
 const TSEP: char = ',';
 const END: char = ':';
@@ -132,6 +143,9 @@ impl<'a> Prog<'a> {
         for i in 0..self.targets.len() {
             src.push_str(&self.target(i).setup);
         }
+        if self.ops.iter().any(|o| matches!(o, Op::OpenImplicit | Op::CloseImplicit)) {
+            src.push_str("\\let\\bg={\\let\\eg=}");
+        }
         let probe = self.probe_text();
         src.push_str(&probe);
         let mut m = Snapshots::new((0..self.targets.len()).map(|i| self.target(i).initial.clone()).collect());
@@ -144,18 +158,26 @@ impl<'a> Prog<'a> {
         let mut mi = Snapshots::new(vec![String::new(); self.targets.len()]);
         for op in &self.ops {
             match *op {
-                Op::Open => {
-                    src.push('{');
+                Op::Open | Op::OpenImplicit => {
+                    src.push_str(if *op == Op::Open { "{" } else { "\\bg " });
                     m.open();
                     mi.open();
                     flags.max_depth = flags.max_depth.max(m.depth());
                 }
-                Op::Close => {
-                    src.push('}');
+                Op::Close | Op::CloseImplicit => {
+                    src.push_str(if *op == Op::Close { "}" } else { "\\eg " });
                     let ev = m.close()?;
                     mi.close();
                     if ev.close_with_saved {
                         flags.nontrivial = true;
+                        if *op == Op::CloseImplicit {
+                            flags.implicit_close_with_saved = true;
+                        }
+                    }
+                    if let Some(t) = ev.restored_target {
+                        let tg = self.target(t);
+                        flags.edge_target_restored |= tg.edge;
+                        flags.non_ascii_target_restored |= !tg.name.is_ascii();
                     }
                     flags.restore_shadowed_twice |= ev.restore_shadowed_twice;
                     if let Some(t) = ev.restored_target {
@@ -171,7 +193,8 @@ impl<'a> Prog<'a> {
                     let tgt = tgt as usize;
                     let kind = self.kinds[self.targets[tgt].0];
                     let same = f & SAME != 0;
-                    let form = &self.target(tgt).forms[(f & !SAME) as usize];
+                    let dflt = f & DEFAULT != 0;
+                    let form = &self.target(tgt).forms[(f & !(SAME | DEFAULT)) as usize];
                     let i = if same {
                         // out of domain while the target still has its initial value (no form writes that)
                         mi.get(tgt).parse::<usize>().ok()?
@@ -196,16 +219,27 @@ impl<'a> Prog<'a> {
                     if gd == 0 && !g && !form.gdef && prefixed_under_positive && m.depth() >= 1 {
                         flags.prefix_under_positive_globaldefs_then_plain_at_zero = true;
                     }
-                    let new = (form.apply)(m.get(tgt), i);
+                    let mut new = (form.apply)(m.get(tgt), i);
+                    if dflt {
+                        new = self.target(tgt).initial.clone();
+                        if m.some_group_holds_save(tgt) {
+                            flags.default_value_while_group_holds_save = true;
+                        }
+                    }
                     if same {
                         debug_assert_eq!(new, m.get(tgt));
                         if scope == model::Scope::Global && m.some_group_holds_save(tgt) {
                             flags.global_same_value_while_group_holds_save = true;
                         }
                     }
-                    mi.assign(tgt, i.to_string(), scope);
+                    mi.assign(tgt, if dflt { String::new() } else { i.to_string() }, scope);
                     src.push_str(if g { form.prefixes.1 } else { form.prefixes.0 });
-                    src.push_str(&(form.text)(i));
+                    if dflt {
+                        // out of domain for targets whose initial value cannot be written (undefined names)
+                        src.push_str(self.target(tgt).default_text.as_ref()?);
+                    } else {
+                        src.push_str(&(form.text)(i));
+                    }
                     let ev = m.assign(tgt, new, scope);
                     flags.purge_depth_ge_2 |= ev.purge_depth_ge_2;
                     flags.local_then_global |= ev.local_then_global_same_group;
@@ -229,7 +263,7 @@ impl<'a> Prog<'a> {
     }
     /// Human-readable history up to and including op `upto` (exclusive end).
     fn shape(&self, upto: usize) -> String {
-        let simple = self.targets.len() == 1 && self.ops.iter().all(|o| !matches!(o, Op::Assign { f, .. } if *f & !SAME != 0));
+        let simple = self.targets.len() == 1 && self.ops.iter().all(|o| !matches!(o, Op::Assign { f, .. } if *f & !(SAME | DEFAULT) != 0));
         let mut s = String::new();
         for op in &self.ops[..upto.min(self.ops.len())] {
             if !s.is_empty() {
@@ -238,14 +272,19 @@ impl<'a> Prog<'a> {
             match *op {
                 Op::Open => s.push('{'),
                 Op::Close => s.push('}'),
+                Op::OpenImplicit => s.push_str("\\bg"),
+                Op::CloseImplicit => s.push_str("\\eg"),
                 Op::Assign { tgt, f, g } => {
                     s.push(if g { 'G' } else { 'L' });
                     if f & SAME != 0 {
                         s.push('=');
                     }
+                    if f & DEFAULT != 0 {
+                        s.push('0');
+                    }
                     if !simple {
                         let t = self.target(tgt as usize);
-                        s.push_str(&format!("({}:{})", t.name, t.forms[(f & !SAME) as usize].name));
+                        s.push_str(&format!("({}:{})", t.name, t.forms[(f & !(SAME | DEFAULT)) as usize].name));
                     }
                 }
             }
@@ -257,7 +296,7 @@ impl<'a> Prog<'a> {
             "family": self.family,
             "kinds": self.kinds.iter().map(|k| k.name).collect::<Vec<_>>(),
             "targets": self.targets.iter().map(|(k, t)| json!([k, t])).collect::<Vec<_>>(),
-            "ops": self.ops.iter().map(|o| match *o { Op::Open => json!("{"), Op::Close => json!("}"), Op::Assign { tgt, f, g } => json!([tgt, f, g]) }).collect::<Vec<_>>(),
+            "ops": self.ops.iter().map(|o| match *o { Op::Open => json!("{"), Op::Close => json!("}"), Op::OpenImplicit => json!("\\bg"), Op::CloseImplicit => json!("\\eg"), Op::Assign { tgt, f, g } => json!([tgt, f, g]) }).collect::<Vec<_>>(),
             "value_rule": if self.rule == ValueRule::Counter { "counter" } else { "by-depth" },
             "drain": self.drain,
             "history": self.shape(self.ops.len()),
@@ -275,6 +314,8 @@ fn prog_from_json<'a>(all: &'a [Kind], case: &Value) -> Option<Prog<'a>> {
         .map(|o| match o {
             Value::String(s) if s == "{" => Some(Op::Open),
             Value::String(s) if s == "}" => Some(Op::Close),
+            Value::String(s) if s == "\\bg" => Some(Op::OpenImplicit),
+            Value::String(s) if s == "\\eg" => Some(Op::CloseImplicit),
             Value::Array(a) => Some(Op::Assign { tgt: a[0].as_u64()? as u8, f: a[1].as_u64()? as u8, g: a[2].as_bool()? }),
             _ => None,
         })
@@ -371,6 +412,10 @@ fn run_case(idx: u64, prog: &Prog, acc: &mut Acc) -> Option<(Built, Vec<Vec<Stri
         (f.globaldefs_forced_global, "globaldefs_positive_forced_global"),
         (f.globaldefs_forced_local, "globaldefs_negative_overrode_global_prefix"),
         (f.global_same_value_while_group_holds_save, "global_assignment_of_current_value_while_a_group_holds_a_save"),
+        (f.default_value_while_group_holds_save, "initial_value_assigned_again_while_a_group_holds_a_save"),
+        (f.implicit_close_with_saved, "implicit_brace_closes_group_with_saved_value"),
+        (f.edge_target_restored, "first_or_last_element_target_restored"),
+        (f.non_ascii_target_restored, "non_ascii_named_target_restored"),
         (f.prefix_under_positive_globaldefs_then_plain_at_zero, "global_prefix_under_positive_globaldefs_then_plain_assignment_at_zero"),
         (f.max_depth >= 8, "nesting_depth_8_reached"),
     ] {
@@ -421,7 +466,9 @@ fn run_case(idx: u64, prog: &Prog, acc: &mut Acc) -> Option<(Built, Vec<Vec<Stri
                 match prog.ops[mm.pos - 1] {
                     Op::Open => "{".into(),
                     Op::Close => "}".into(),
-                    Op::Assign { tgt, f, g } => format!("{}{}:{}", if g { "\\global " } else { "" }, prog.kinds[prog.targets[tgt as usize].0].name, if f & SAME != 0 { format!("{} (same value)", prog.target(tgt as usize).forms[(f & !SAME) as usize].name) } else { prog.target(tgt as usize).forms[f as usize].name.to_string() }),
+                    Op::OpenImplicit => "\\bg".into(),
+                    Op::CloseImplicit => "\\eg".into(),
+                    Op::Assign { tgt, f, g } => format!("{}{}:{}", if g { "\\global " } else { "" }, prog.kinds[prog.targets[tgt as usize].0].name, if f & SAME != 0 { format!("{} (same value)", prog.target(tgt as usize).forms[(f & !SAME) as usize].name) } else if f & DEFAULT != 0 { "initial value again".to_string() } else { prog.target(tgt as usize).forms[f as usize].name.to_string() }),
                 }
             };
             acc.class(&format!("FAIL {kindnames}: first divergence after `{last_op}`"));
@@ -749,14 +796,40 @@ fn main() {
         let len = ctx.pick(4usize, 5usize);
         let mut blocks = Blocks::new();
         let mut nforms = 0;
-        for k in all.iter().filter(|k| k.name == "macro" || k.name == "macro-active") {
-            let forms: Vec<u8> = (0..k.targets[0].forms.len() as u8).filter(|f| !k.targets[0].forms[*f as usize].gdef).collect();
-            nforms = forms.len();
+        for k in all.iter().filter(|k| ["macro", "macro-active", "count", "font"].contains(&k.name)) {
+            // macro kinds: every \\def form; count and font: plain and \\global\\global (the Variable / Font arm of the prefix code)
+            let forms: Vec<u8> = (0..k.targets[0].forms.len() as u8).filter(|f| { let fm = &k.targets[0].forms[*f as usize]; !fm.gdef && (k.name.starts_with("macro") || *f == 0 || fm.prefixes != kinds::PLAIN) }).collect();
+            nforms = nforms.max(forms.len());
             let tf: Vec<(u8, u8)> = forms.iter().map(|f| (0u8, *f)).collect();
             let alpha = alphabet(&tf);
             blocks.push(HistBlock { kinds: vec![k], targets: vec![(0, 0)], len, alpha: alpha.clone() }, pow(alpha.len(), len));
         }
-        run_hist_family(&mut ctx, "prefix-order-histories", &format!("macro and macro-active: every history of exactly {len} ops over {{, }} and {nforms} forms of \\def (plain, \\long, \\outer, \\long…\\global, \\outer\\long…\\global, \\global\\long\\outer), each local and global ({} ops)", 2 + 2 * nforms), blocks, 5009);
+        run_hist_family(&mut ctx, "prefix-order-histories", &format!("macro and macro-active: every history of exactly {len} ops over {{, }} and {nforms} forms of \\def (plain, \\long, \\outer, \\long…\\global, \\outer\\long…\\global, \\global\\long\\outer, \\global\\global), each local and global ({} ops); count and font: plain and \\global\\global assignment (6 ops)", 2 + 2 * nforms), blocks, 5009);
+    }
+    // ---- (d) assignments that write the INITIAL value again ("value == default => nothing to save" shortcuts)
+    {
+        let len = ctx.pick(5usize, 7usize);
+        let alpha = vec![Op::Open, Op::Close, Op::Assign { tgt: 0, f: 0, g: false }, Op::Assign { tgt: 0, f: 0, g: true }, Op::Assign { tgt: 0, f: DEFAULT, g: false }, Op::Assign { tgt: 0, f: DEFAULT, g: true }];
+        let mut blocks = Blocks::new();
+        let mut nk = 0;
+        for k in all.iter().filter(|k| k.targets[0].default_text.is_some()) {
+            nk += 1;
+            blocks.push(HistBlock { kinds: vec![k], targets: vec![(0, 0)], len, alpha: alpha.clone() }, pow(alpha.len(), len));
+        }
+        run_hist_family(&mut ctx, "initial-value-histories", &format!("per kind whose initial value can be written ({nk} kinds: registers 0 / empty, codes, \\endlinechar, aliases back to their first register, \\fnz = null font): every history of exactly {len} ops over {{, }}, L(new), G(new), L(initial value), G(initial value)"), blocks, 4007);
+    }
+    // ---- (i) groups delimited by implicit braces (\let\bg={ \let\eg=}), mixed with explicit ones
+    {
+        let len = ctx.pick(5usize, 6usize);
+        let alpha = vec![Op::Open, Op::Close, Op::OpenImplicit, Op::CloseImplicit, Op::Assign { tgt: 0, f: 0, g: false }, Op::Assign { tgt: 0, f: 0, g: true }];
+        let mut blocks = Blocks::new();
+        for (ki, k) in all.iter().enumerate() {
+            if ki == gd_index {
+                continue;
+            }
+            blocks.push(HistBlock { kinds: vec![k], targets: vec![(0, 0)], len, alpha: alpha.clone() }, pow(alpha.len(), len));
+        }
+        run_hist_family(&mut ctx, "implicit-brace-histories", &format!("per kind ({} kinds): every history of exactly {len} ops over {{, }}, \\bg, \\eg (implicit braces, any mixture with explicit ones), local, \\global", all.len() - 1), blocks, 5003);
     }
     // ---- (s) assignments that write the value that is already current ("unchanged => skip the save-stack work" shortcuts)
     let same_alpha = vec![Op::Open, Op::Close, Op::Assign { tgt: 0, f: 0, g: false }, Op::Assign { tgt: 0, f: 0, g: true }, Op::Assign { tgt: 0, f: SAME, g: false }, Op::Assign { tgt: 0, f: SAME, g: true }];
@@ -864,6 +937,10 @@ fn main() {
     ctx.require("globaldefs_negative_overrode_global_prefix", "a \\global assignment executed while \\globaldefs<0");
     ctx.require("global_prefix_under_positive_globaldefs_then_plain_assignment_at_zero", "a \\global-prefixed assignment ran while \\globaldefs>0 and a later unprefixed assignment ran inside a group with \\globaldefs=0");
     ctx.require("global_assignment_of_current_value_while_a_group_holds_a_save", "a global assignment writes the value that is already current while an open group holds a saved value for the target");
+    ctx.require("initial_value_assigned_again_while_a_group_holds_a_save", "an assignment writes the initial (default) value while an open group holds a saved value for the target");
+    ctx.require("implicit_brace_closes_group_with_saved_value", "a group that holds a saved value is closed by an implicit brace (\\let\\eg=})");
+    ctx.require("first_or_last_element_target_restored", "a closing group restores register 0 / 32767 / 255, code-table entry 0 / 127 / 128 / U+10FFFE or the first / last array element");
+    ctx.require("non_ascii_named_target_restored", "a closing group restores a target whose name is a 2-, 3- or 4-byte character");
     ctx.require("nesting_depth_8_reached", "a history reaches nesting depth 8");
     ctx.finish("a case is one operation history ({, }, local/\\global assignments) for one target kind or a pair of kinds, run as a TeX program on a fresh VM with a probe of every target after every op and compared with a stack-of-snapshots model at every probe; histories are enumerated exhaustively per family bound (index -> digits over the alphabet), never sampled; non-trivial = the history executes at least one `}` while the closing group holds a saved value for some target (computed on the model); distinct = distinct (kinds, history)");
 }
